@@ -389,6 +389,7 @@ type world struct {
 	rpcN          map[[2]int]int
 	gossipN       map[[2]int]int
 	gsplitN       map[int]int
+	rpcTagN       map[string]int
 	preListings   map[int][]string
 	lossAtSettle  int64        // datagrams lost up to the last anti-entropy round (which repaired them)
 	heldIDs       map[int]bool // identifiers the harness took out of node 0's writer pool (C06)
@@ -534,6 +535,16 @@ func (w *world) interceptor(src, dst int) grpc.UnaryClientInterceptor {
 		if sm, ok := req.(*api.ScheduleMessageRequest); ok && sm.Message != nil {
 			tag = tagOf(sm.Message.Payload)
 		}
+		if tag != "" {
+			// latencies are a function of the message carried, not of the order in which concurrent
+			// callers reached this point; and no two calls take exactly equally long
+			w.mu.Lock()
+			w.rpcTagN[tag]++
+			tn := w.rpcTagN[tag]
+			w.mu.Unlock()
+			r = w.keyed("rpc", src, dst, tag, tn)
+		}
+		jitter := time.Duration(r.Intn(900)) * time.Microsecond
 		w.mu.Lock()
 		w.rpcStarted = append(w.rpcStarted, rpcRec{Src: src, Dst: dst, Tag: tag, AtMs: w.nowMs()})
 		w.mu.Unlock()
@@ -552,7 +563,7 @@ func (w *world) interceptor(src, dst int) grpc.UnaryClientInterceptor {
 				return false
 			}
 		}
-		if !sleep(time.Duration(1+r.Intn(15)) * time.Millisecond) {
+		if !sleep(time.Duration(1+r.Intn(15))*time.Millisecond + jitter) {
 			// the caller's own deadline ran out during the ordinary latency of a call: not a fault of
 			// the simulator's making unless one is configured for this pair
 			if alive && !part && (mode == "" || mode == "ok") {
@@ -592,7 +603,7 @@ func (w *world) interceptor(src, dst int) grpc.UnaryClientInterceptor {
 			return err
 		}
 		resp, herr := w.nodes[dst].rpcsrv.ScheduleMessage(ctx, cp)
-		sleep(time.Duration(1+r.Intn(15)) * time.Millisecond)
+		sleep(time.Duration(1+r.Intn(15))*time.Millisecond + jitter/3)
 		if mode == "lossresp" {
 			w.statAdd("fault.rpc_response_lost", 1)
 			rec("lossresp")
@@ -973,7 +984,7 @@ func (s seededReader) Read(p []byte) (int, error) {
 
 func newWorld(t *testing.T, c *Case, o *Outcome) *world {
 	w := &world{t: t, c: c, o: o, start: time.Now(), clients: map[int]*simClient{}, conns: map[[2]int]*grpc.ClientConn{},
-		blocked: map[[2]int]bool{}, rpcMode: map[[2]int]string{}, rpcN: map[[2]int]int{}, gossipN: map[[2]int]int{}, gsplitN: map[int]int{},
+		blocked: map[[2]int]bool{}, rpcMode: map[[2]int]string{}, rpcN: map[[2]int]int{}, gossipN: map[[2]int]int{}, gsplitN: map[int]int{}, rpcTagN: map[string]int{},
 		seed: c.Seed, stats: map[string]int64{}, leaveAt: map[[2]int]int64{}, lateGossip: map[[2]int]bool{}, notify: make(chan struct{}, 1), forcedDelay: map[int]int64{}, goTag: map[int64]string{}, viewAt: map[int][]string{}, pingKnow: map[int64]pingKnowledge{}, knownAtStop: map[int]map[string]bool{}, stopAt: map[int]int64{}}
 	base := os.Getenv("VERIF_DATA")
 	if base == "" {
